@@ -17,6 +17,7 @@ def run(ctx, rep):
         },
     )
     exceptions.rule_handler_stack_mutations(ctx, rep, "C07-R2c")
+    exceptions.rule_signal_not_swallowed(ctx, rep, "C07-R3c")
     exceptions.rule_finally_placement(ctx, rep, "C07-R4")
     exceptions.rule_catchable_classes(ctx, rep, "C07-R5")
     exceptions.rule_source_map_per_function(ctx, rep, "C07-R6")
